@@ -15,15 +15,15 @@ CLAIMED = {
  "C14": ("one Parallel reconcile from an arbitrary snapshot: all vacancies filled and all live condemned pods deleted in the same reconcile; at most one update delete", "5/C14"),
  "C10": ("one sync(key) over every combination of pod owner x label match x name shape x terminating and of revision owner x labels x upgrade marker, with a cached set that may be stale w.r.t. the API: adopt/release patches, foreign objects never written or counted, cached objects frozen (engine-level write monitor)", "5/C10"),
  "C11": ("one sync(key) with the pause annotation or a deletion timestamp raised in every explored state (orphans waiting, unhealthy pods, slots): empty write log when paused; no pod/claim write and no adoption when deleting", "5/C11"),
- "C15": ("one sync(key) inside recover() for every spec the CRD admits within the modelled dimensions (unknown policy/strategy strings, rollingUpdate absent / without partition / arbitrary int32 partition, arbitrary history limit, stale status) times small pod populations incl. odd names and nil labels: no panic", "5/C15"),
+ "C15": ("one sync(key) inside recover() for every spec the CRD admits within the modelled dimensions (unknown policy/strategy strings, rollingUpdate absent / without partition / arbitrary int32 partition, arbitrary history limit, stale status, empty and DoesNotExist selectors) times small pod populations incl. odd names and nil labels: no panic", "5/C15"),
  "C06": ("pods built by the real constructors for every ordinal/partition/claim-template shape carry the stable identity and storage of the statement; the real pod control over fake clients with every single failure of claim lookups, claim creates and the pod create, in every claim-map iteration order: claims first, failure blocks the pod, claims never rewritten, a re-created ordinal gets the same claims", "5/C06"),
  "C08": ("revision bookkeeping (getStatefulSetRevisions, create/update of revisions, collision loop) over stored histories with arbitrary revision numbers, engineered name collisions and collision counts, followed by a reconcile after each kind of non-template edit; codec-dependent clauses are not decided (see level_note)", "5/C08"),
- "C13": ("sync(key) over revision populations with every owner x label x upgrade-marker combination, arbitrary revision numbers and an arbitrary int32 history limit: every revision delete in the log is justified, oldest first, each revision once", "5/C13"),
- "C16": ("each pod/set event handler on one event of every shape (owner x labels x resource version x deletion timestamp x tombstones) against the real lister: the enqueued keys are exactly those the statement lists; one worker step with an API failure at any call: AddRateLimited vs Forget, Done always", "5/C16"),
+ "C13": ("sync(key) over revision populations with every owner x label x upgrade-marker combination, arbitrary revision numbers and an arbitrary int32 history limit: every revision delete in the log is justified, oldest first, each revision once; also in a reconcile that re-uses and renumbers an old revision (rollback)", "5/C13"),
+ "C16": ("the real constructor NewStatefulSetController wired to recording informers, then one event of every shape (pods: owner x labels x resource version x deletion timestamp x tombstones; sets: add, delete, tombstone, update with spec/status/annotation-only/label changes, pause raised or lowered, resync) delivered through the handlers it registered, against the real lister: the enqueued keys are exactly those the statement lists; one worker step with an API failure at any call: AddRateLimited vs Forget, Done always", "5/C16"),
  "C17": ("the real Upgrade helper over fake clients for every selector shape / revision population / pre-existing Advanced object, interrupted by a failure (five kinds, incl. lost responses) or a crash at any API call and re-run: ordering of the built-in delete, orphan propagation, relabelling, no pod/claim call, same final state", "5/C17"),
- "C19": ("clauses (b) and (c): the annotation helpers as lossless codecs over sets of arbitrary int32 (round trip, union, removal, other annotations untouched, pause flag), and SetObjectDefaults_StatefulSet applied twice vs once on objects varied area by area over the modelled schema with arbitrary int32/int64 field values; clause (a) (hijack read-back) is not decided", "5/C19"),
+ "C19": ("clause (a): the real FromBuiltinStatefulSet / ToBuiltinStatefulSet / ToBuiltinStetefulsetList over the engine's structural model of encoding/json, on objects varied area by area (metadata, spec, pod template, status) with symbolic leaves: read back equals what was written in every field the Advanced API models, apps/v1 typing, lists keep length, order and list metadata, no conversion error; clauses (b) and (c): the annotation helpers as lossless codecs over sets of arbitrary int32 (round trip, union, removal, other annotations untouched, pause flag), and SetObjectDefaults_StatefulSet applied twice vs once on objects varied area by area over the modelled schema with arbitrary int32/int64 field values", "5/C19"),
  "C02": ("bounded unrolling, stated as such: from every symbolic start snapshot within the bounds, rounds of {cache refresh, real sync(key), fair kubelet step} reach a fixed point within 3(N+R+K)+4 rounds; there the pods are exactly the desired ordinals, Ready, updated at/above the partition, status counters equal spec.replicas; two further reconciles issue no write", "5/C02"),
- "C09": ("one sync(key) from a symbolic snapshot during which any one API call fails (up to six error kinds incl. lost responses) or the process dies at that call: unrecovered failures are reported as errors, the partial write log passes the C03/C04 monitors, and the fault-free loop of C02 afterwards reaches the same converged predicate", "5/C09"),
+ "C09": ("one sync(key) from a symbolic snapshot during which any one API call fails (up to six error kinds incl. lost responses) or the process dies at that call: unrecovered failures are reported as errors, the partial write log passes the C03/C04 monitors, and the fault-free loop of C02 afterwards reaches the same converged predicate; in one run the same start state is also run without failures and the two final states (pods, their revisions, claims, status) are compared", "5/C09"),
  "C18": ("decided part only: three reconciles on the world the upgrade helper leaves behind find, label-sync and adopt the marker-carrying revisions, create no revision, delete no pod and resolve the update revision to the adopted one - under the stated assumption that the computed patch equals the recorded data", "5/C18"),
  "C20": ("the real newHijackWatch/receive/Stop/ResultChan between a source goroutine and a consumer under a cooperative scheduler whose choice of the next runnable goroutine at every synchronisation operation is symbolic: order/type/payload of relayed events incl. Error events, no panic, and after Stop or source end the channel is closed and no goroutine is left, for every interleaving within the preemption bound", "5/C20"),
 }
@@ -31,7 +31,7 @@ NA = {}
 EXTRA_NOTE = {
  "C08": " NOT decided: the clauses 'applying the recorded data reproduces the template exactly' and 'only the template influences the patch' (runtime.Encode / strategic-merge-patch / encoding/json are replaced by models during symbolic execution and only exercised by the native replay of sampled paths).",
  "C18": " NOT decided: byte-identity of the revision data with the built-in controller's for every pod template - it is the stated ASSUMPTION of the decided part (codec path modelled); a seeded change inside that path (seeded/C18-patch-with-usenumber) is not detected.",
- "C19": " NOT decided: clause (a), the hijack-client read-back equality / conversion never fails (encoding/json over the whole schema).",
+ "C19": " Clause (a) is decided over the fields varied in the round-trip runs, with encoding/json replaced by a structural model during symbolic execution (validated on every run by the native replay with the real package); template content that is not varied there (volumes, probes, affinity, ...) and the composition with defaulting inside the hijack client's Create/Update are outside the claim.",
  "C02": " Bounded unrolling only: liveness beyond the stated number of rounds and pods is not claimed.",
  "C20": " Interleavings are explored up to the stated preemption bound; natively the schedule is the Go scheduler's, so schedule-dependent counterexamples are replayed in their 'settled' variant (the consumer pauses before Stop).",
  "C09": " One failing call per reconcile in the main runs, two in the 'two-failures' run; the recovery rounds are fault free.",
